@@ -72,6 +72,9 @@ func c11RecvAck(maxK int) {
 		verifCover("acked-none")
 	}
 	verifAssert(s.ackNo >= oldAck, "C11/C08: acknowledgement number never moves backwards")
+	if s.ackNo > oldAck {
+		verifAssert(s.senderWindow.duplicatedAckCounter == 0, "C08: an acknowledgement of new data resets the duplicate-acknowledgement counter (duplicated ACKs on a healthy link must not add up until the tube gives up)")
+	}
 	verifAssert(s.ackNo-oldAck <= uint64(k), "C11/C08: an acknowledgement never releases more frames than were sent")
 	verifAssert(len(s.frames) == k-int(s.ackNo-oldAck), "C11/C08: frames held are the unacknowledged suffix")
 	if len(s.frames) > 0 {
